@@ -126,30 +126,76 @@ def trailer(facts, res):
                         res.violation(R, tbf.rel(facts.path_of(fn)), fn["qname"], "block-pointer", x["l"][1], "block pointer is '%s', not base + recorded offset of the same block" % t)
         if not ok and who == "reader":
             raise AnalysisBroken("initHeader: block pointer assignment not found")
-    # recorded values: counts and offsets written from the computed table
-    wt = facts.ntext(tbf.body(w))
-    for need in ("nbItemsInBlocks[idxBlock]=inNbItemsInBlocks[idxBlock]", "offsetOfBlocksForPtrs[idxBlock]=sizeAndOffsetOfBlocks[idxBlock].second"):
-        res.instance(R, "record:" + need.split("=")[0], facts.loc(w), need)
-        if need not in wt:
-            res.violation(R, f, w["qname"], "record:" + need.split("[")[0], w["l"][1], "the trailer does not record `%s`" % need)
-    # offsets are the running sum
-    g = facts.fn("TbfMemoryBlock::GetSizeAndOffsetOfBlocks")
-    n = 0
-    for x in walk(tbf.body(g)):
+    # recorded values: counts come from the argument, offsets from the computed table, same block index on both sides
+    sizes_param = w["params"][0]["did"]
+    table = [v for v in walk(tbf.body(w)) if v.get("k") == "VarDecl" and kids(v) and tbf.callee_name(strip(kids(v)[0])) == "GetSizeAndOffsetOfBlocks"]
+    if len(table) != 1:
+        raise AnalysisBroken("resetBlocksFromSizes: the size/offset table is not a local initialised by GetSizeAndOffsetOfBlocks")
+    rec = {"nbItemsInBlocks": False, "offsetOfBlocksForPtrs": False}
+    for x in walk(tbf.body(w)):
         if x.get("k") == "BinaryOperator" and x.get("op") == "=":
             l = strip(kids(x)[0])
-            if l.get("k") in ("MemberExpr", "CXXDependentScopeMemberExpr") and l.get("name") == "second":
-                n += 1
-                li = facts.ntext(kids(strip(kids(l)[0]))[-1])
-                rhs = facts.ntext(kids(x)[1]).strip("()")
-                if rhs == "0":
-                    ok = li == "0"
+            r = strip(kids(x)[1])
+            if l.get("k") == "ArraySubscriptExpr" and strip(kids(l)[0]).get("name") in rec:
+                mem = strip(kids(l)[0])["name"]
+                li = facts.ntext(kids(l)[1])
+                if mem == "nbItemsInBlocks":
+                    ok = r.get("k") in ("ArraySubscriptExpr", "CXXOperatorCallExpr") and strip(kids(r)[-2]).get("did") == sizes_param and facts.ntext(kids(r)[-1]) == li
                 else:
-                    m = re.match(r"^sizeAndOffset\[(.+)\]\.first\+sizeAndOffset\[(.+)\]\.second$", rhs)
-                    ok = bool(m) and m.group(1) == m.group(2) and sympy.simplify(sympy.sympify(li, locals={"NbBlocks": sympy.Symbol("NbBlocks"), "idxBlock": sympy.Symbol("idxBlock")}) - sympy.sympify(m.group(1), locals={"NbBlocks": sympy.Symbol("NbBlocks"), "idxBlock": sympy.Symbol("idxBlock")}) - 1) == 0
-                res.instance(R, "running-sum[%s]" % li, facts.loc(x), rhs)
+                    ok = r.get("k") in ("MemberExpr", "CXXDependentScopeMemberExpr") and r.get("name") == "second" and kids(r) \
+                        and strip(kids(r)[0]).get("k") in ("ArraySubscriptExpr", "CXXOperatorCallExpr") \
+                        and strip(kids(strip(kids(r)[0]))[-2]).get("did") == table[0]["did"] and facts.ntext(kids(strip(kids(r)[0]))[-1]) == li
+                res.instance(R, "record:" + mem, facts.loc(x), facts.ntext(x)[:100])
+                rec[mem] = rec[mem] or ok
                 if not ok:
-                    res.violation(R, tbf.rel(facts.path_of(g)), g["qname"], "running-sum[%s]" % li, x["l"][1], "offset of block %s is '%s', not size + offset of the previous block: blocks would overlap or leave the allocation" % (li, rhs))
+                    res.violation(R, f, w["qname"], "record:" + mem, x["l"][1], "the trailer records `%s`: block i must record its own item count (argument i) / its own computed offset (table[i].second)" % facts.ntext(x)[:100])
+    for mem, seen in rec.items():
+        if not seen:
+            res.violation(R, f, w["qname"], "record:" + mem, w["l"][1], "the trailer table %s is never filled" % mem)
+    # offsets are the running sum
+    g = facts.fn("TbfMemoryBlock::GetSizeAndOffsetOfBlocks")
+    rets = [r for r in walk(tbf.body(g), into_lambdas=False) if r.get("k") == "ReturnStmt" and kids(r)]
+    tv = strip(kids(rets[-1])[0]) if rets else None
+    if tv is None or tv.get("k") != "DeclRefExpr":
+        raise AnalysisBroken("GetSizeAndOffsetOfBlocks does not return a local table")
+    tdid = tv["did"]
+    n = 0
+    syms = {}
+
+    def idx_sym(node):
+        t = facts.ntext(node)
+        return sympy.sympify(re.sub(r"[A-Za-z_]\w*", lambda m: syms.setdefault(m.group(0), "s%d" % len(syms)), t))
+
+    def elem(node, member):
+        """T[idx].member -> idx node, else None"""
+        node = strip(node)
+        if node.get("k") in ("MemberExpr", "CXXDependentScopeMemberExpr") and node.get("name") == member and kids(node):
+            b = strip(kids(node)[0])
+            if b.get("k") in ("ArraySubscriptExpr", "CXXOperatorCallExpr") and strip(kids(b)[-2]).get("did") == tdid:
+                return kids(b)[-1]
+        return None
+    for x in walk(tbf.body(g), into_lambdas=False):
+        if x.get("k") == "BinaryOperator" and x.get("op") == "=":
+            li = elem(kids(x)[0], "second")
+            if li is None:
+                continue
+            n += 1
+            rhs = strip(kids(x)[1])
+            ok = False
+            if rhs.get("k") == "IntegerLiteral" and rhs.get("val") == 0:
+                ok = strip(li).get("k") == "IntegerLiteral" and strip(li).get("val") == 0
+            elif rhs.get("k") == "BinaryOperator" and rhs.get("op") == "+":
+                a, b = kids(rhs)
+                parts = {"first": elem(a, "first") or elem(b, "first"), "second": elem(a, "second") or elem(b, "second")}
+                if parts["first"] is not None and parts["second"] is not None:
+                    try:
+                        ok = sympy.simplify(idx_sym(li) - idx_sym(parts["first"]) - 1) == 0 and sympy.simplify(idx_sym(li) - idx_sym(parts["second"]) - 1) == 0
+                    except Exception:
+                        ok = False     # the index is not of the form `this block - 1`
+            res.instance(R, "running-sum[%s]" % facts.ntext(li), facts.loc(x), facts.ntext(kids(x)[1])[:100])
+            if not ok:
+                res.violation(R, tbf.rel(facts.path_of(g)), g["qname"], "running-sum[%s]" % facts.ntext(li), x["l"][1],
+                              "offset of block %s is '%s', not size + offset of the previous block: blocks would overlap or leave the allocation" % (facts.ntext(li), facts.ntext(kids(x)[1])[:80]))
     res.floor(R + ".running-sum", n, 3, "offset assignments")
 
 
@@ -175,7 +221,24 @@ def strides(facts, res):
         if len(size) != 1:
             raise AnalysisBroken("%s::GetMemorySizeFromNbItems not found" % kind)
         rets = [r for r in walk(tbf.body(size[0])) if r.get("k") == "ReturnStmt"]
-        ret = facts.ntext(kids(rets[0])[0]) if rets else ""
+        ret = ""
+        if rets and kids(rets[0]):
+            sdecl = {v["did"]: v for v in walk(tbf.body(size[0])) if v.get("k") == "VarDecl"}
+
+            def cls_of(n):
+                n = strip(n)
+                if n.get("k") == "BinaryOperator" and n.get("op") == "*":
+                    return "*".join(sorted(cls_of(c) for c in kids(n)))
+                if n.get("k") == "DeclRefExpr":
+                    d = sdecl.get(n.get("did"))
+                    if d is not None and kids(d) and tbf.callee_name(strip(kids(d)[0])) == "GetLeadingDim":
+                        return "leadingDim"
+                    if n.get("dk") == "ParmVar":
+                        return "inNbItems"
+                    if n.get("dk") == "NonTypeTemplateParm":
+                        return "NbRows"
+                return facts.ntext(n)
+            ret = cls_of(kids(rets[0])[0])
         res.instance(R, kind, facts.loc(size[0]), "stride from %s (%d sites), alignment %s, extent = %s" % (sorted(cats), len(calls), sorted(aligns), ret))
         f = tbf.rel(facts.path_of(size[0]))
         if len(cats) > 1 or len(aligns) > 1:
@@ -208,11 +271,17 @@ def strides(facts, res):
     g = [f for f in facts.functions if f["name"] == "GetLeadingDim" and not f.get("inst")]
     if len(g) != 1:
         raise AnalysisBroken("TbfUtils::GetLeadingDim not found")
-    t = facts.ntext(tbf.body(g[0]))
+    pn = {p["name"]: "P%d" % i for i, p in enumerate(g[0]["params"])}
+    loc = {v["name"]: facts.ntext(kids(v)[0]) for v in walk(tbf.body(g[0])) if v.get("k") == "VarDecl" and kids(v)}
+    rets = [r for r in walk(tbf.body(g[0])) if r.get("k") == "ReturnStmt" and kids(r)]
+    t = facts.ntext(kids(rets[0])[0]) if rets else ""
+    for _ in range(3):
+        t = re.sub(r"[A-Za-z_]\w*", lambda m: "(" + loc[m.group(0)] + ")" if m.group(0) in loc else m.group(0), t)
+    t = re.sub(r"[A-Za-z_]\w*", lambda m: pn.get(m.group(0), m.group(0)), t)
     res.instance(R, "GetLeadingDim", facts.loc(g[0]), t)
-    if "sizeof(DataType)*inNbItems" not in t or "((size+MemoryAlignementBytes-1)/MemoryAlignementBytes)*MemoryAlignementBytes" not in t:
-        sz = sympy.Symbol("s")
-        res.violation(R, tbf.rel(facts.path_of(g[0])), g[0]["qname"], "round-up", g[0]["l"][1], "GetLeadingDim is not the round-up of sizeof(DataType)*count to the alignment: " + t)
+    want = "(((sizeof(DataType)*P0)+P1-1)/P1)*P1"
+    if t.replace(" ", "") != want:
+        res.violation(R, tbf.rel(facts.path_of(g[0])), g[0]["qname"], "round-up", g[0]["l"][1], "GetLeadingDim is `%s`, not the round-up of sizeof(DataType)*count to the alignment (%s)" % (t, want))
 
 
 def slot_of_field(facts, cls):
